@@ -47,7 +47,7 @@ def run(ctx):
         nth = 2 if i % 5 else 3
         progs = mvcc.gen_programs(rng, nthreads=nth, length=4)
         jobs.append((kind, progs, ctx.seed * 1000003 + i, os.path.join(ctx.scratch, 'mv-%d' % i),
-                     {'stick': (0.3, 0.6, 0.85)[i % 3]}))
+                     {'stick': (0.3, 0.6, 0.85)[i % 3], 'yield_io': i % 4 == 0}))
     res = par.pmap(mvcc.scenario, jobs, chunksize=8)
     # spec -> code: TLC behaviours of ZMvcc as directed schedules
     from ..drivers import mvcc_directed
@@ -107,7 +107,7 @@ def run(ctx):
                 'write both then commit or abort; close and reopen through the pool; DB.undoMultiple of the last one or two '
                 'transactions as a transaction of its own) run on the real DB, Connection, MVCC '
                 'adapter over FileStorage and MappingStorage with one real thread per connection under the cooperative '
-                'scheduler (seeded random walk, three stickiness levels); one event per ZMvcc action (Open, Close, PollRead, '
+                'scheduler (seeded random walk, three stickiness levels; in a quarter of the FileStorage runs every raw read/write of the data file is a yield point as well); one event per ZMvcc action (Open, Close, PollRead, '
                 'PollApply with snapshot and cache projection, Read with serial, Write, BeginVote outcome, FinishStart, '
                 'Deliver per instance, Publish, AbortTxn) with tids rank-normalised; TLC validates every trace against '
                 'ZMvccTrace (every step must be a ZMvcc step with the logged values) and evaluates CacheCoherent, Fresh, '
